@@ -873,12 +873,18 @@ def encode_stream(models, widths=None, variants=None, repeat_desc_at=(), repeat_
     w = Widths(widths)
     out = [HEADER_FRAME]
     emitted = []
+    current = {}  # identifier -> the definition announced last under it
     for i, m in enumerate(models):
         need = []
         model_descriptors(m, need)
         for d in need:
-            if d not in emitted:
-                emitted.append(d)
+            ident = (d[0], descriptor_hash(d[0], d[1]))
+            if d not in emitted or current.get(ident) != d:
+                # first use - or another definition has been announced under the same identifier since (identifiers
+                # are not injective): the definition in force for an identifier is the one announced last
+                if d not in emitted:
+                    emitted.append(d)
+                current[ident] = d
                 out.append(frame(pack(descriptor_to_ext(d[0], d[1], w, bin_names), w)))
         if i in repeat_desc_at and emitted:
             d = emitted[i % len(emitted)]
